@@ -678,9 +678,9 @@ VH_CMD(blockmut)
             sig += order + (sibling ? "s" : "t") + std::to_string(G.vtx.size()) + "/" + std::to_string(vs.size()) + ",";
         }
 
-        // ---- 64-byte transaction shapes
-        {
-            RefBlock* tip = h.Tip();
+        // ---- 64-byte transaction shapes (skipped when the node sits on a block the generator never offered as valid: that
+        //      has been recorded above and is judged by the oracle; the history cannot go on from an unknown tip)
+        if (RefBlock* tip = h.Tip()) {
             TxTable tt;
             std::vector<std::string> dl;
             // X: no coinbase; k transactions of 63..65 bytes, at least one of exactly 64 in two of three cases
@@ -724,13 +724,15 @@ VH_CMD(blockmut)
             vh::log().rec(j);
             vh::log().obs("tx64_rounds");
             // the chain goes on
-            RefBlock* nb = h.MakeBlock(h.Tip(), {}, false, "after64");
-            h.Clock(nb);
-            DeliverResult d = Deliver(node, led, nb, {});
-            h.Report(d.violations, "after64");
-            h.Report(CheckTip(node, led), "after64");
+            if (RefBlock* t2 = h.Tip()) {
+                RefBlock* nb = h.MakeBlock(t2, {}, false, "after64");
+                h.Clock(nb);
+                DeliverResult d = Deliver(node, led, nb, {});
+                h.Report(d.violations, "after64");
+                h.Report(CheckTip(node, led), "after64");
+            }
         }
-        h.Report(CheckUtxoProbe(node, led), "final");
+        if (h.Tip()) h.Report(CheckUtxoProbe(node, led), "final");
         vh::log().rec(vh::J().u("case", c).str("fam", "blockmut").str("kind", "case").i("base", base).i("rounds", rounds).u("variants", n_variants).u("violations", h.nviol).str("sig", sig).raw("node_opts", opts.Describe()));
         vh::log().obs("histories");
     }
